@@ -502,6 +502,9 @@ def frequency_axes(repo, rep):
 
 
 def run(repo, rep, tier):
+    rep.rule("R-C13-21", "readers return the positions the file holds: no longitude read from a file is reduced modulo 360")
+    from .round7b import reader_positions_unchanged
+    reader_positions_unchanged(repo, rep, "R-C13-21")
     from .round7b import hygiene
     hygiene(repo, rep, "C13", ('wavespectra.input.', 'wavespectra.core.swan'), falsy=True)
     rep.rule("R-C13-19", "(shared with C12) coordinate grids built with arange / linspace do not borrow their dtype from file data")
